@@ -49,6 +49,9 @@ var profileWeights = map[string]map[string]float64{
 		"block": 10, "probe.fuzztx": 10, "probe.fuzzproposal": 4, "el.adversarial": 6, "el.locking": 2, "rel.hashes": 1, "rel.deposit": 1, "el.bridge": 1, "rel.withdraw": 1,
 		"p.byz": 0.10, "p.junk": 0.10,
 	},
+	"enum": {
+		"block": 10, "el.locking": 3, "rel.hashes": 2, "rel.deposit": 3, "el.bridge": 2, "rel.withdraw": 3,
+	},
 	"export": {
 		"block": 10, "probe.export": 1.2, "el.locking": 5, "rel.hashes": 2, "rel.deposit": 2, "el.bridge": 3, "rel.withdraw": 3, "rel.group": 2, "el.params": 1, "rel.pubkey": 0.3,
 		"p.absent": 0.08, "p.evidence": 0.03, "p.timejump": 0.08,
